@@ -199,7 +199,7 @@ pub fn project(env: &Env) -> Map<String, Value> {
     let mut liqrec = Map::new();
     let mut staked = Map::new();
     let mut other = Map::new();
-    let mut fee = Value::Null;
+    let mut fee = json!({});
     for (k, a) in env.world.accts.iter() {
         let name = env.names.name(k);
         if a.owner == marginfi::ID && a.data.len() >= 8 {
@@ -231,7 +231,7 @@ pub fn project(env: &Env) -> Map<String, Value> {
             } else {
                 other.insert(name, digest(&[&a.data]));
             }
-        } else if (a.owner == spl_token::ID || a.owner == spl_token_2022::ID) && a.data.len() >= 165 {
+        } else if (a.owner == spl_token::ID || a.owner == spl_token_2022::ID) && a.data.len() >= 165 && (a.data.len() == 165 || a.data[165] == 2) {
             let mint = Pubkey::new_from_array(a.data[0..32].try_into().unwrap());
             let owner = Pubkey::new_from_array(a.data[32..64].try_into().unwrap());
             let amount = u64::from_le_bytes(a.data[64..72].try_into().unwrap());
